@@ -8,7 +8,10 @@ ISumM(s) == IF s = <<>> THEN 0 ELSE s[1] + ISumM(Tail(s))
 IProdM(s) == IF s = <<>> THEN 1 ELSE s[1] * IProdM(Tail(s))
 \* multivariate normal: covariance L L^T with an integer lower-triangular L, evaluation points mu + L z
 MvnLs == {<< <<2>> >>, << <<1, 0>>, <<0 - 1, 2>> >>, << <<2, 0>>, <<1, 1>> >>, << <<1, 0, 0>>, <<2, 1, 0>>, <<0 - 1, 1, 2>> >>,
-          << <<1, 0, 0, 0>>, <<1, 1, 0, 0>>, <<0, 0 - 1, 2, 0>>, <<1, 0, 0, 1>> >>}
+          << <<1, 0, 0, 0>>, <<1, 1, 0, 0>>, <<0, 0 - 1, 2, 0>>, <<1, 0, 0, 1>> >>,
+          \* covariances with an exact zero where the Cholesky factor fills in: (3,2) entry of L L^T is 2*1 + (-1)*2 = 0
+          << <<1, 0, 0>>, <<1, 2, 0>>, <<2, 0 - 1, 1>> >>,
+          << <<2, 0, 0, 0>>, <<1, 1, 0, 0>>, <<1, 0 - 1, 1, 0>>, <<0 - 1, 1, 1, 2>> >>}
 Zs(d) == {[i \in 1..d |-> 0], [i \in 1..d |-> IF i = 1 THEN 2 ELSE 0], [i \in 1..d |-> (i % 3) - 1], [i \in 1..d |-> IF i = d THEN 0 - 4 ELSE 1]}
 Init == \/ \E i \in 1..Len(Rows) : c = [i |-> i]
         \/ \E L \in MvnLs : \E z \in Zs(Len(L)) : c = [i |-> 0, L |-> L, z |-> z]
